@@ -56,6 +56,9 @@ func Split32BitImmediate(imm int64) (low12bit, high20bit int64, err error) {
 }
 
 func (ctx *_OpContextType) encodeRaw(xlen int, as abi.As, arg *abi.AsArgument) (uint32, error) {
+	// encodePseudo calls this on the pseudo-instruction's own context with the
+	// base instruction in as: encode with the context of as.
+	ctx = &_AOpContextTable[as]
 	if ctx.PseudoAs != 0 {
 		panic("unreachable")
 	}
